@@ -14,6 +14,12 @@ ENGINES = [
 NOTES = "Property-based testing and fuzzing only. See DESIGN.md. Known findings: /verif/known_findings.json."
 NOT_APPLICABLE = {}
 CHECKS = {
+    "C01": {
+        "text": "Differential execution: ~2400 (quick) / ~100k (thorough) generated well-typed programs of the executable core language, transpiled with annotate off and on, executed in-process and compared (printed strings, uncaught exception class) with an independent reference interpreter of the model. Construct x context coverage is counted per run. Sampled, not exhaustive.",
+        "design_ref": "DESIGN.md section 6 C01, section 3.1",
+        "note": "Trusted: the reference interpreter pbt/model.py and its assumptions S1-S12 (documented semantics; operators are CPython's); CPython 3.11 executes the output. Constructs the docs leave open are not generated. Rejected programs are not judged here.",
+        "technique": "property-based testing: type-directed program generation + differential execution against a reference interpreter (Hypothesis)",
+    },
     "C10": {
         "text": "Finite enumeration (435k trees: every parent/slot/child and parent/slot/child/slot/grandchild combination and every binary parent with two compound children over 49 constructors incl. the desugared shapes) of hand-built Core trees printed by mamba's Display, plus random deeper trees and end-to-end Mamba expressions in 10 statement contexts; round-trip oracle: CPython's ast.parse of the printed text must equal the tree. The enumeration is complete for its stated sub-space; deeper trees are sampled.",
         "design_ref": "DESIGN.md section 6 C10, appendix A",
